@@ -1,8 +1,8 @@
 (* Properties_C12.v — a provider converges to the most recently supplied service. *)
-From QV Require Import Base Fields SrcFacts Msg SrcDecisions Sim Prober Hostname Provider ProviderSpec ProviderProofs.
+From QV Require Import Base Fields SrcFacts Msg SrcDecisions Cache CacheSpec Sim Prober Hostname Provider ProviderSpec ProviderProofs ProviderListener ProviderConverge.
 Local Open Scope Z_scope.
 
-(* PARTIAL.  Proved here: the two publishing steps.  (1) publish() serves exactly the proposals that update() wrote
+(* Handler level (the run-level theorem follows below): the two publishing steps.  (1) publish() serves exactly the proposals that update() wrote
    from the last supplied service; (2) the handler of a completed probe rewrites the proposals to the confirmed
    candidate name and publishes them, withdrawing what was served before.  The convergence statement itself
    (C12_quiescent_correct: in every quiescent reachable state the served records are those of the last supplied
@@ -22,3 +22,48 @@ Theorem C12_confirmation_publishes_partial name p :
     m_records ann = [set_target name (pv_ptrP p); set_name name (pv_srvP p); set_name name (pv_txtP p)].
 Proof. exact (name_confirmed_withdraws_first name p). Qed.
 Print Assumptions C12_confirmation_publishes_partial.
+
+(* ---- run level ----
+   [kreach12 c L g]: c is a state of the hostname + provider + prober composite reached from the start by ANY sequence
+   of handler invocations at any instants (one provider object at a time); L is the passive listener's cache (C13) and
+   g the service most recently supplied to the existing provider.
+   Whenever nothing is pending - no probe in flight - and the provider has learnt a host name to point at, it is
+   confirmed and serves exactly that service: the PTR is named its type, the SRV carries its port, the TXT its attributes,
+   all three under one instance name that is the requested name (dots replaced by dashes) or an alternative name-k of it
+   (never an alternative of an alternative), with the SRV target the proposal carries (by C10 a host name under which the
+   hostname object actually registered); and these three records are exactly what a passive listener holds.
+   "First free" alternative is C07 (each candidate gets its own undisturbed two seconds).  Not proved: that the target is
+   the CURRENTLY registered host name - false for the history of the open finding `created-during-reassertion`, and it
+   needs the kernel's timer discipline for the re-assertion timer. *)
+Theorem C12_quiescent_serves_last_request c L g s :
+  kreach12 c L g -> g = Some s -> pv_exists (cp_prov c) = true -> cp_prober c = None ->
+  bs_data (r_target (pv_srvP (cp_prov c))) <> [] ->
+  pv_confirmed (cp_prov c) = true /\
+  r_name (pv_ptr (cp_prov c)) = s_type s /\ r_port (pv_srv (cp_prov c)) = s_port s /\ r_attrs (pv_txt (cp_prov c)) = s_attrs s /\
+  r_target (pv_srv (cp_prov c)) = r_target (pv_srvP (cp_prov c)) /\
+  (exists k, r_name (pv_srv (cp_prov c)) = Some (candidate (req_label s) (req_tail s) k)) /\
+  r_name (pv_txt (cp_prov c)) = r_name (pv_srv (cp_prov c)) /\ r_target (pv_ptr (cp_prov c)) = r_name (pv_srv (cp_prov c)) /\
+  L = [pv_ptr (cp_prov c); pv_srv (cp_prov c); pv_txt (cp_prov c)].
+Proof. exact (quiescent_serves_last_request c L g s). Qed.
+Print Assumptions C12_quiescent_serves_last_request.
+
+(* every supplied service is remembered: the proposals always carry the last request *)
+Theorem C12_proposals_carry_last_request c L g s :
+  kreach12 c L g -> g = Some s -> pv_exists (cp_prov c) = true ->
+  pv_initialized (cp_prov c) = true /\
+  r_name (pv_srvP (cp_prov c)) = Some (req_label s ++ req_tail s) /\ r_name (pv_ptrP (cp_prov c)) = s_type s /\
+  r_port (pv_srvP (cp_prov c)) = s_port s /\ r_attrs (pv_txtP (cp_prov c)) = s_attrs s.
+Proof. intros R E X. exact (ki_req _ _ (kreach12_inv _ _ _ R) s E X). Qed.
+Print Assumptions C12_proposals_carry_last_request.
+
+(* non-vacuity: register, offer "a" on port 80, then port 81 under the same name: served directly *)
+Example C12_nonvacuous :
+  let h0 := fst (on_rebroadcast (mkHost [118; 109]%N [] [] [] false 1)) in
+  let c0 := mkComp h0 no_prov None in
+  let svc := fun p => mkService (Some [95; 116; 46]%N) (Some [97]%N) None p [] in
+  let evs := [(2000, EvTimer T_REG); (2000, EvApi PNewProv); (2000, EvApi (PUpdate (svc 80%N))); (4000, EvTimer T_PROBER);
+              (5000, EvApi (PUpdate (svc 81%N)))] in
+  let c := fold_left (fun c ne => fst (comp_handle (fst ne) c (snd ne))) evs c0 in
+  cp_prober c = None /\ pv_confirmed (cp_prov c) = true /\ r_port (pv_srv (cp_prov c)) = 81%N /\
+  bs_data (r_target (pv_srv (cp_prov c))) = [118; 109; 46; 108; 111; 99; 97; 108; 46]%N.
+Proof. vm_compute. repeat split. Qed.
